@@ -167,6 +167,26 @@ def hash_pairs(ctx, seed):
     yield "Term", "extras_int_vs_float", data.Term(**base, rank=1), data.Term(**base, rank=1.0)
     yield "Tag", "term_extras_in_other_order", data.Tag(term=ta, value="v"), data.Tag(term=tb, value="v")
     yield "Feature", "term_extras_in_other_order", data.Feature(term=ta, value=0.5), data.Feature(term=tb, value=0.5)
+    # hash first, modify afterwards: the modified object must hash like a freshly built equal object
+    tg = data.Tag(term=t, value="dog")
+    hash(tg); {tg}
+    yield "Tag", "model_copy_update_after_hash", tg.model_copy(update={"value": "cat"}), data.Tag(term=t, value="cat")
+    tg2 = data.Tag(term=t, value="dog")
+    hash(tg2)
+    tg2.value = "cat"
+    yield "Tag", "assign_after_hash", tg2, data.Tag(term=t, value="cat")
+    ft = data.Feature(term=t, value=1.0)
+    hash(ft)
+    yield "Feature", "model_copy_update_after_hash", ft.model_copy(update={"value": 2.0}), data.Feature(term=t, value=2.0)
+    ft2 = data.Feature(term=t, value=1.0)
+    hash(ft2)
+    ft2.value = 2.0
+    yield "Feature", "assign_after_hash", ft2, data.Feature(term=t, value=2.0)
+    for name in ("Note", "SoundEvent", "SoundEventAnnotation", "SoundEventPrediction", "ClipPrediction"):
+        a = objs[name]
+        hash(a)
+        nu = g.uid()
+        yield name, "model_copy_new_uuid_after_hash", a.model_copy(update={"uuid": nu}), _rebuild(a.model_copy(update={"uuid": nu}))
     # near misses (may or may not be equal; the check only demands a == b => hash equal)
     yield "Term", "near_label", data.Term(**base), data.Term(name="x:y", label="Y2", definition="d")
     yield "Tag", "near_value", data.Tag(term=t, value="a"), data.Tag(term=t, value="A")
